@@ -8,6 +8,7 @@ CONSTANTS
   Alphabet <- DqAlphabet
   MaxLen = 6
   Prefix <- cDqPrefix1
+  Suffix <- cNoPrefix
   PatternKw <- cPattern
 INIT Init
 NEXT Next
